@@ -157,6 +157,27 @@ def make_interp(prog, extra: Optional[dict] = None, **kw) -> Interp:
     return it
 
 
+def model_definition(it: Interp, root: str = "ROOT") -> Obj:
+    """An (empty) definition object built by the library's own interpreted constructor, so that attributes a
+    constructor introduces exist on the model; falls back to a bare object if the constructor is outside the vocabulary."""
+    import ast as _ast
+    from .interp import Env, Raised
+    from .core import Unsupported
+    try:
+        e = Env()
+        e.vars["__relpath__"] = "xtce/definitions.py"
+        e.vars["__cls__"] = None
+        e.vars["ROOTNAME"] = root
+        saved = it.steps
+        v = it.eval(_ast.parse("XtcePacketDefinition([], root_container_name=ROOTNAME)", mode="eval").body, e)
+        it.steps = saved
+        if isinstance(v, Obj):
+            return v
+    except (Unsupported, Raised):
+        pass
+    return Obj("XtcePacketDefinition", root_container_name=root)
+
+
 # ------------------------------------------------------------------------------------------------ byte sources
 class Marker:
     """Stands for an external class used only in isinstance tests (io.BufferedIOBase, socket.socket, ...)."""
